@@ -1,3 +1,4 @@
+import re
 """C15 — legacy property migration.  C15.tbl (perform() arms vs the bundled database), C15.sites (the four call sites)."""
 from sa import core, db as dbm, tables, decision, flow
 from . import common
@@ -340,6 +341,56 @@ def rule_memo(c, prog):
         c.ok(R, "collect_type_info:class-level-records", n_rec[0])
 
 
+def rule_item_map(c, prog, R="C15.sites"):
+    """XML reader: the presence test sees everything the item has accumulated so far, across <Properties> elements"""
+    fn = prog.fn("rbx_xml::deserializer::deserialize_properties")
+    inst = "xml-reader:presence-over-whole-item"
+    MAP = re.compile(r"HashMap<ustr::Ustr, rbx_types::variant::Variant")
+
+    def peel(ty):
+        ty = ty or ""
+        while ty.startswith("&"):
+            ty = ty[5:] if ty.startswith("&mut ") else ty[1:]
+        return ty
+    plids = {}
+    for i, prm in enumerate(fn.params):
+        for b in core.walk(prm):
+            if b.get("k") == "Binding":
+                plids[b["lid"]] = (i, prm.get("ty") or "")
+    tests = [x for x in core.walk_fn(fn) if x.get("k") == "MethodCall" and x["m"] in ("entry", "contains_key", "get") and MAP.search(peel(core.strip(x["recv"]).get("ty")).replace("std::collections::hash::map::", "").replace("ahash::", "")) and any("new_property_name" in core.fingerprint(a, 6) for a in x["args"])]
+    if not tests:
+        c.not_decided.append("deserialize_properties: the presence test of the migration target was not recognised")
+        return
+    r = core.strip(tests[0]["recv"])
+    while r.get("k") in ("AddrOf", "Unary"):
+        r = core.strip(r["e"])
+    from_param = r.get("k") == "Path" and r.get("lid") in plids and plids[r["lid"]][1].startswith("&mut ")
+    if not from_param:
+        c.violation(R, "xml-reader|presence-map-local", "deserialize_properties tests for the new property in a map it created itself: an Item may spread its properties over several <Properties> elements, so an explicit value read from an earlier element is not seen and the migrated legacy value of a later one replaces it", core.loc(tests[0]), instance=inst)
+        return
+    # the caller hands in one map per item: declared outside the loop over the item's child elements
+    idx = plids[r["lid"]][0]
+    ok = True
+    for g in prog.lib_fns():
+        if g.body is None or g.crate != "rbx_xml":
+            continue
+        for y in core.walk_fn(g):
+            if y.get("k") == "Call" and core.callee_generic(y) == fn.path:
+                a = core.strip(core.call_args(y)[idx])
+                while a.get("k") in ("AddrOf", "Unary"):
+                    a = core.strip(a["e"])
+                if a.get("k") != "Path" or a.get("res") != "local":
+                    ok = False
+                    continue
+                for lp in core.walk_fn(g):
+                    if lp.get("k") == "Loop" and any(z is y for z in core.walk(lp)) and any(st["pat"].get("lid") == a["lid"] for st in core.walk_lets(lp)):
+                        ok = False
+    if ok:
+        c.ok(R, inst)
+    else:
+        c.violation(R, "xml-reader|presence-map-per-element", "the map handed to deserialize_properties is created anew for every <Properties> element of an Item: the presence test of a migration target does not see values read from an earlier element", fn.sp, instance=inst)
+
+
 def run(c, prog):
     d = dbm.Database()
     rule_win(c, prog)
@@ -348,4 +399,7 @@ def run(c, prog):
     rule_memo(c, prog)
     from . import C08
     C08.rule_own(core.Alias(c, "C15"), prog)     # binary writer: an explicit (canonical) value is looked up before any legacy alias
+    from . import C10
+    C10.rule_frame(core.Alias(c, "C15"), prog)    # the binary reader's `explicit value pushed later wins` relies on WeakDom::insert keeping the LAST of two builder entries
+    rule_item_map(c, prog)
     c.not_decided += ["equality of the migrated values on the four paths beyond `one function produces them all`"]
